@@ -26,8 +26,7 @@ class _Tok:
     """Result of the abstract json.dumps: equality is equality of canonical forms; hash is constant,
     so a real dict keyed by tokens compares keys with __eq__ (a z3 constraint) instead of hashing bytes."""
 
-    __slots__ = ("obj", "_c")
-
+    # (no __slots__: tokens sit inside caches that C20 pickles with every protocol)
     def __init__(self, obj):
         self.obj = obj
         self._c = canon(obj)
